@@ -130,6 +130,25 @@ def call(req):
         vg = VisibilityGraph(A[0], timings=A[1] if len(A) > 1 else None,
                              silence_level=3, **kw)
         return vg.adjacency
+    if fn == "pyx_kernel":
+        # a typed-buffer kernel at its own boundary: arrays of the requested shapes
+        # (random small contents), scalars as given
+        import importlib
+        pkg, name = req["key"].split(":")
+        mod = importlib.import_module(f"pyunicorn.{pkg}._ext.numerics")
+        rs = np.random.RandomState(req.get("seed", 0))
+        args = []
+        for a in req["kargs"]:
+            if isinstance(a, dict):
+                dt = np.dtype(a["dtype"])
+                if dt.kind == "f":
+                    args.append(rs.randint(0, 4, size=a["shape"]).astype(dt))
+                else:
+                    args.append(rs.randint(0, 2, size=a["shape"]).astype(dt))
+            else:
+                args.append(a)
+        getattr(mod, name)(*args)
+        return None
     if fn == "sweep":
         return sweep(req, A, S)
     raise RuntimeError("unknown fn " + fn)
@@ -269,6 +288,46 @@ def sweep(req, A, S):
     return ("cnt", c[0], c[1])
 
 
+KCALLS = set()
+KSEEN = set()
+
+
+def install_probe(table):
+    """wrap every typed-buffer kernel as the calling modules see it: record the shapes and
+    integer arguments of each call made under the public API"""
+    mods = [m for n, m in list(sys.modules.items()) if n.startswith("pyunicorn") and m is not None]
+    for key, info in table.items():
+        pkg, name = key.split(":")
+        ext = sys.modules.get(f"pyunicorn.{pkg}._ext.numerics")
+        orig = getattr(ext, name, None) if ext else None
+        if orig is None:
+            continue
+
+        def mk(orig=orig, key=key, info=info):
+            def w(*a, **k):
+                rec = {}
+                for (pn, kind, ty, nd), val in zip(info["params"], a):
+                    if kind == "buf" and hasattr(val, "shape"):
+                        for ax, d in enumerate(val.shape):
+                            rec[f"{pn}_{ax}"] = int(d)
+                    elif kind == "int":
+                        try:
+                            rec[pn] = int(val)
+                        except Exception:  # noqa
+                            pass
+                out = "raise"
+                try:
+                    r = orig(*a, **k)
+                    out = "ok"
+                    return r
+                finally:
+                    KCALLS.add((key, json.dumps(rec, sort_keys=True), out))
+            return w
+        for m in mods:
+            if m is not ext and getattr(m, name, None) is orig:
+                setattr(m, name, mk())
+
+
 def main():
     reqs = [json.loads(l) for l in open(sys.argv[1])]
     if len(sys.argv) > 2:
@@ -276,6 +335,10 @@ def main():
     # imports first, so that import-time noise is not attributed to a request
     import pyunicorn  # noqa
     import pyunicorn.climate, pyunicorn.timeseries, pyunicorn.funcnet  # noqa
+    import pyunicorn.core, pyunicorn.eventseries  # noqa
+    import os
+    if os.environ.get("C20_KERNEL_TABLE"):
+        install_probe(json.load(open(os.environ["C20_KERNEL_TABLE"])))
     print("@@READY", pyunicorn.__file__, file=ERR, flush=True)
     for req in reqs:
         print("@@BEGIN", req["id"], file=ERR, flush=True)
@@ -297,6 +360,9 @@ def main():
                 raise
             out = "raise:" + type(e).__name__
         faulthandler.cancel_dump_traceback_later()
+        for kc in sorted(KCALLS - KSEEN):
+            print("@@KCALL", json.dumps(kc), file=ERR, flush=True)
+        KSEEN.update(KCALLS)
         print("@@END", req["id"], out, file=ERR, flush=True)
 
 
